@@ -9,13 +9,56 @@ let lege ok file expr = if ok then "ok" else "contract 1 # " ^ file ^ " " ^ expr
 let site_no = function O -> 0 | S O -> 1 | _ -> 2
 let by_site n file e1 e2 = match site_no n with 0 -> "ok" | 1 -> "contract 1 # " ^ file ^ " " ^ e1 | _ -> "contract 1 # " ^ file ^ " " ^ e2
 
+let rec int_of_nat = function O -> 0 | S n -> 1 + int_of_nat n
+(* build mode of the harness variant whose output this run is compared with (set by the engine from prop.py's "env");
+   the `mode` probes carry their build mode in the case line instead *)
+let env_flag name default = (try Sys.getenv name = "1" with Not_found -> default)
+let env_checks () = env_flag "VERIF_C05_CHECKS" true
+let env_safe () = env_flag "VERIF_C05_SAFE" false
+(* is TETL_PRECONDITION_SAFE active in that build: the extracted macro selection of _contracts/check.hpp *)
+let safe_active () = precondition_safe_active (env_checks ()) (env_safe ())
+
+(* sized / unsized ranges: the extracted vec_insert_range / vec_assign_range / str_append_range (ModelMode.v) say which check
+   fires and whether the object is still unmodified *)
+let vec_site_expr = function
+  | 1 -> "begin()_<=_it" | 2 -> "it_<=_end()" | 3 -> "first_<=_last"
+  | 4 -> "size()_+_static_cast<size_type>(last_-_first)_<=_capacity()" | 5 -> "!full()"
+  | 6 | 8 -> "last_-_first_>=_0" | 7 -> "static_cast<size_type>(last_-_first)_<=_capacity()" | _ -> "?"
+let str_site_expr = function
+  | 1 -> "last_-_first_>=_0" | 2 -> "static_cast<size_type>(last_-_first)_<=_capacity()_-_size()" | 3 -> "size()_<_capacity()" | _ -> "?"
+(* (model leg, spec leg); pre = the documented precondition; ctor = a constructor (no earlier object: flag 1) *)
+let range_legs ?(ctor = false) file site_expr pre outcome =
+  match outcome with
+  | RDone -> ("ok", if pre then "ok" else "contract 1")
+  | RStopped (unmod, site) ->
+      let flag = if unmod || ctor then "1" else "0" in
+      ("contract " ^ flag ^ " # " ^ file ^ " " ^ site_expr (int_of_nat site), if pre then "ok" else "contract " ^ flag)
+  | RInvalidRange -> ("invalid-range", "na")
+
 let vec_state ?(cap = 4) k =
   let s0 = (empty_vec (nat_of_int cap), empty_vec (nat_of_int cap)) in
   let xs = List.init k (fun i -> z_of_int (i + 1)) in
   match step pred_of s0 (AssignRange (false, xs)) with Ok (s, _) -> s | _ -> s0
 
-let run_case op t =
+let rec run_case op t =
   match op with
+  (* `strpos <flavour> ...`: the string probes of append / assign / constructor (str, pos, count) with pos > str.size() - the
+     recorded defect region KF-C05-string-substr-pos-unchecked, under an op token of their own so that only they are excused *)
+  | "strpos" -> let flavour = next_str t in run_case flavour t
+  | "mode" ->
+      (* the macro selection of _contracts/check.hpp: the case line names the build (checks, safe) that runs it *)
+      let c = next_bool t in let s = next_bool t in let sub = next_str t in let a = next_z t in
+      let nz = Big.sign (big_of_z a) <> 0 in
+      (match sub with
+       | "pre" -> (lege (mode_precondition c s nz) "harness.cpp" "v_!=_0", sp (doc_checked (doc_precondition_active c s) nz))
+       | "safe" -> (lege (mode_precondition_safe c s nz) "harness.cpp" "v_!=_0", sp (doc_checked (doc_precondition_safe_active c s) nz))
+       | "arr" | "carr" ->
+           (lege (mode_array_index c s (z_of_int 3) a) "array.hpp" "pos_<_Size", sp (doc_checked (doc_precondition_safe_active c s) (pre_index (z_of_int 3) (u a))))
+       | "day" -> (lege (mode_day_ctor c s a) "day.hpp" "d_<=_etl::numeric_limits<etl::uint8_t>::max()",
+                   sp (doc_checked (doc_precondition_active c s) (Big.leq (big_of_z a) (Big.of_int 255) && Big.sign (big_of_z a) >= 0)))
+       | "month" -> (lege (mode_day_ctor c s a) "month.hpp" "m_<=_etl::numeric_limits<unsigned_char>::max()",
+                     sp (doc_checked (doc_precondition_active c s) (Big.leq (big_of_z a) (Big.of_int 255) && Big.sign (big_of_z a) >= 0)))
+       | _ -> raise Not_found)
   | "vec" | "vec0" | "vecnt" ->
       let cap = if op = "vec0" then 0 else 4 in
       let k = next_int t in
@@ -26,6 +69,48 @@ let run_case op t =
       let nines n = List.init (max 0 (min n 8)) (fun _ -> z_of_int 7) in
       let small z = let b = big_of_z z in if Big.fits_int b then Big.to_int b else max_int in
       let i0 = small a0 and i1 = small a1 in
+      let clamp8 n = max (-8) (min n 8) in
+      let zi = z_of_int in
+      let sv = "static_vector.hpp" in
+      (* the range members with the iterator category as a parameter (ModelMode.v); None = not a range probe *)
+      let range_case = (match o with
+        | "irg" | "mins" -> Some (range_legs sv vec_site_expr (pre_vec_insert_range (zi cap) (zi k) a0 a1) (vec_insert_range ItPointer (zi cap) (zi k) a0 a1 true))
+        | "irg_rev" | "irg_rev2" | "irg_ra" | "mins_rev" | "mins_ra" ->
+            let d = zi (clamp8 i1) in
+            Some (range_legs sv vec_site_expr (pre_vec_insert_range (zi cap) (zi k) a0 d) (vec_insert_range ItRandomAccess (zi cap) (zi k) a0 d true))
+        | "irg_fwd" | "mins_fwd" ->
+            let d = zi (max 0 (clamp8 i1)) in
+            Some (range_legs sv vec_site_expr (pre_vec_insert_range (zi cap) (zi k) a0 d) (vec_insert_range ItForward (zi cap) (zi k) a0 d true))
+        | "asr" -> Some (range_legs sv vec_site_expr (pre_vec_assign_range (zi cap) a0) (vec_assign_range ItPointer (zi cap) (zi k) a0))
+        | "asr_rev" | "asr_rev2" | "asr_ra" ->
+            let d = zi (clamp8 i0) in Some (range_legs sv vec_site_expr (pre_vec_assign_range (zi cap) d) (vec_assign_range ItRandomAccess (zi cap) (zi k) d))
+        | "asr_fwd" -> let d = zi (max 0 (clamp8 i0)) in Some (range_legs sv vec_site_expr (pre_vec_assign_range (zi cap) d) (vec_assign_range ItForward (zi cap) (zi k) d))
+        | "ctor_rg" -> Some (range_legs ~ctor:true sv vec_site_expr (pre_vec_assign_range (zi cap) a0) (vec_assign_range ItPointer (zi cap) Z0 a0))
+        | "ctor_rg_rev" | "ctor_rg_ra" ->
+            let d = zi (clamp8 i0) in Some (range_legs ~ctor:true sv vec_site_expr (pre_vec_assign_range (zi cap) d) (vec_assign_range ItRandomAccess (zi cap) Z0 d))
+        | "ctor_rg_fwd" -> let d = zi (max 0 (clamp8 i0)) in Some (range_legs ~ctor:true sv vec_site_expr (pre_vec_assign_range (zi cap) d) (vec_assign_range ItForward (zi cap) Z0 d))
+        | "ctor_carr" -> Some (range_legs ~ctor:true sv vec_site_expr true (vec_insert_range ItPointer (zi cap) Z0 Z0 a0 true))
+        | _ -> None) in
+      (* the C01 operation model (pointer ranges, a single Contract outcome) must stop exactly the same calls *)
+      let c01_stops = (match o with
+        | "irg" | "mins" when i1 >= 0 && i1 < max_int -> Some (match step pred_of s (InsertRange (false, a0, nines i1)) with Contract -> true | _ -> false)
+        | "irg_rev" | "irg_rev2" | "irg_ra" | "mins_rev" | "mins_ra" | "irg_fwd" | "mins_fwd" when i1 >= 0 ->
+            Some (match step pred_of s (InsertRange (false, a0, nines (clamp8 i1))) with Contract -> true | _ -> false)
+        | "asr" when i0 >= 0 && i0 < max_int -> Some (match step pred_of s (AssignRange (false, nines i0)) with Contract -> true | _ -> false)
+        | "asr_rev" | "asr_rev2" | "asr_ra" | "asr_fwd" when i0 >= 0 -> Some (match step pred_of s (AssignRange (false, nines (clamp8 i0))) with Contract -> true | _ -> false)
+        | _ -> None) in
+      let new_range_op = List.mem o ["irg_rev"; "irg_rev2"; "irg_ra"; "mins"; "mins_rev"; "mins_ra"; "mins_fwd"; "asr_rev"; "asr_rev2"; "asr_ra";
+                                     "ctor_rg_rev"; "ctor_rg_ra"; "ctor_carr"] in
+      let agree (m, spl) = (match c01_stops with
+        | Some st when st <> (m <> "ok") -> ("c01-model-disagrees " ^ m, spl)
+        | _ -> (m, spl)) in
+      if new_range_op then (match range_case with Some r -> agree r | None -> raise Not_found) else
+      (* the older range probes (irg, irg_fwd, asr, asr_fwd, ctor_rg, ctor_rg_fwd) keep their driver-level transcription below and
+         must agree with the proved range model as well *)
+      let cross (m, spl) = (match range_case with
+        | Some (rm, rsp) when rm <> m || rsp <> spl -> ("range-model-disagrees " ^ m ^ " / " ^ rm ^ " | " ^ rsp, spl)
+        | _ -> (m, spl)) in
+      cross (
       let (vop, file) = match o with
         | "pb" -> (Some (PushBack (false, z_of_int 9)), "static_vector.hpp")
         | "eb" -> (Some (EmplaceBack (false, z_of_int 9)), "static_vector.hpp")
@@ -111,7 +196,7 @@ let run_case op t =
        | None ->
            (* constructors: TETL_PRECONDITION(n <= capacity()) / range length *)
            let ok = if o = "ctor_rg" then i0 >= 0 && i0 <= cap else Big.leq (big_of_z (u a0)) (Big.of_int cap) in
-           (leg ok file, sp ok))
+           (leg ok file, sp ok)))
   | "ivec" ->
       let cap = next_int t in let k = next_int t in let o = next_str t in let a = next_z t in
       let k = if cap = 0 then 0 else k in
@@ -195,7 +280,7 @@ let run_case op t =
       (lege (bitset_guard n pos) file "pos_<_size()", sp (pre_index n (u pos)))
   | "arr" | "carr" ->
       let i = next_z t in
-      let safe = (try Sys.getenv "VERIF_C05_SAFE" = "1" with Not_found -> false) in
+      let safe = safe_active () in
       let inr = pre_index (z_of_int 3) (u i) in
       (lege (array_index safe (z_of_int 3) i) "array.hpp" "pos_<_Size", sp inr)
   | "stride" ->
@@ -229,7 +314,9 @@ let run_case op t =
       let gt x y = Big.gt (big_of_z x) (big_of_z y) in
       (* where: (header, expression) of the check expected to fire if the call is stopped *)
       let of_res (file, expr) r = match r with Ok _ -> "ok" | Contract -> "contract 1 # " ^ file ^ " " ^ expr | UB _ -> "ub" | OutOfFuel -> "fuel" in
-      let by_op where vo = (of_res where (str_step s vo), sp (str_pre_doc (z_of_int k) zc vo)) in
+      (* spec leg: the documented precondition plus the standard's pos <= str.size() for the (str, pos, count) overloads
+         (str_pre_std = str_pre_doc outside the `strpos` cases) *)
+      let by_op where vo = (of_res where (str_step s vo), sp (str_pre_std (z_of_int k) zc vo)) in
       let z = z_of_int (Char.code 'z') in
       let idx_le = (f, "index_<=_size()") and pos_le = (f, "pos_<=_size()") and svpos = (fv, "pos_<=_size()") in
       let fits = (f, "static_cast<size_type>(last_-_first)_<=_capacity()_-_size()") in
@@ -237,7 +324,30 @@ let run_case op t =
       let push = (f, "size()_<_capacity()") in
       let npos = z_of_big (Big.sub two64 Big.one) in
       let s0 () = match str_make zc [] Z0 with Ok s -> s | _ -> failwith "init0" in
-      (match o with
+      (* append(first, last) and what is built on it, with the iterator category as a parameter (str_append_range of
+         ModelMode.v: which check fires, is the string still unmodified); the legs derived from the C04 operation model below
+         must agree with it.  A constructor has no earlier object; assign(first, last) builds a temporary first, so *this
+         is unmodified whenever a check fires *)
+      let n0 = ua 0 in
+      let neg x = z_of_big (Big.neg (big_of_z x)) in
+      let zk = z_of_int k in
+      let rl ?(fresh = false) cat d =
+        let sz = if fresh then Z0 else zk in
+        Some (range_legs ~ctor:fresh f str_site_expr (pre_str_append_range zc sz d) (str_append_range cat zc sz d)) in
+      let range_case = (match o with
+        | "app_rng" | "app_str" | "pluseq_str" | "plus_str" -> rl ItPointer n0
+        | "app_rng_rev" -> rl ItPointer (neg n0)
+        | "app_rev" | "app_ra" -> rl ItRandomAccess n0
+        | "app_fwd" -> rl ItForward n0
+        | "ctor_rng" | "asg_rng" | "ctor_view" | "asg_view" | "opeq_view" -> rl ~fresh:true ItPointer n0
+        | "ctor_rng_rev" | "asg_rng_rev" -> rl ~fresh:true ItPointer (neg n0)
+        | "ctor_rev" | "ctor_ra" | "asg_rev" | "asg_ra" -> rl ~fresh:true ItRandomAccess n0
+        | "ctor_fwd" | "asg_fwd" -> rl ~fresh:true ItForward n0
+        | _ -> None) in
+      let cross (m, spl) = (match range_case with
+        | Some (rm, rsp) when rm <> m || rsp <> spl -> ("range-model-disagrees " ^ m ^ " / " ^ rm ^ " | " ^ rsp, spl)
+        | _ -> (m, spl)) in
+      cross (match o with
        | "ctor_ptr" -> let r = str_make zc src_all (ua 0) in (of_res (f, "len_<=_Capacity") r, sp (not (gt (ua 0) zc)))
        | "ctor_fill" -> let r = str_ctor_fill zc (ua 0) z in (of_res (f, "count_<=_Capacity") r, sp (not (gt (ua 0) zc)))
        | "asg_cstr" -> by_op (f, "len_<=_capacity()") (OAssignCstr (cstr (ua 0)))
@@ -247,24 +357,24 @@ let run_case op t =
        (* constructors / assignments from a range, a view, a C string (0c6dc7f: the range constructor is
           append(first, last) on the empty string under construction; s0 = that empty string) *)
        | "ctor_cstr" | "asg_cstr2" -> let r = str_make zc (cstr (ua 0)) (ua 0) in (of_res (f, "len_<=_Capacity") r, sp (not (gt (ua 0) zc)))
-       | "ctor_rng" | "ctor_rev" | "ctor_view" -> (of_res fits (str_step (s0 ()) (OAppendRange (src (ua 0)))), sp (not (gt (ua 0) zc)))
+       | "ctor_rng" | "ctor_rev" | "ctor_ra" | "ctor_view" -> (of_res fits (str_step (s0 ()) (OAppendRange (src (ua 0)))), sp (not (gt (ua 0) zc)))
        | "ctor_rng_rev" | "asg_rng_rev" -> let ok = Big.sign (big_of_z (ua 0)) = 0 in (lege ok f "last_-_first_>=_0", sp ok)
        | "ctor_fwd" | "asg_fwd" -> (of_res push (str_step (s0 ()) (OAppendRangeIn (src (ua 0)))), sp (not (gt (ua 0) zc)))
        | "ctor_view_sub" -> let vo = OAssignViewSub (src (ua 0), ua 1, ua 2) in
-                            (of_res (if gt (ua 1) (ua 0) then svpos else fits) (str_step (s0 ()) vo), sp (str_pre_doc Z0 zc vo))
-       | "ctor_str_sub" -> let vo = OAssignStrSub (src (ua 0), ua 1, ua 2) in (of_res fits (str_step (s0 ()) vo), sp (str_pre_doc Z0 zc vo))
-       | "ctor_str_pos" -> let vo = OAssignStrSub (src (ua 0), ua 1, ua 0) in (of_res fits (str_step (s0 ()) vo), sp (str_pre_doc Z0 zc vo))
-       | "asg_rng" | "asg_rev" | "asg_view" | "opeq_view" -> by_op fits (OAssignViewSub (src (ua 0), Z0, npos))
+                            (of_res (if gt (ua 1) (ua 0) then svpos else fits) (str_step (s0 ()) vo), sp (str_pre_std Z0 zc vo))
+       | "ctor_str_sub" -> let vo = OAssignStrSub (src (ua 0), ua 1, ua 2) in (of_res fits (str_step (s0 ()) vo), sp (str_pre_std Z0 zc vo))
+       | "ctor_str_pos" -> let vo = OAssignStrSub (src (ua 0), ua 1, ua 0) in (of_res fits (str_step (s0 ()) vo), sp (str_pre_std Z0 zc vo))
+       | "asg_rng" | "asg_rev" | "asg_ra" | "asg_view" | "opeq_view" -> by_op fits (OAssignViewSub (src (ua 0), Z0, npos))
        | "opeq_ch" -> by_op (f, "count_<=_capacity()") (OAssignPtr ([z], z_of_int 1))
        | "asg_str_sub" -> by_op fits (OAssignStrSub (src (ua 0), ua 1, ua 2))
-       | "app_rev" -> by_op fits (OAppendRange (src (ua 0)))
+       | "app_rev" | "app_ra" -> by_op fits (OAppendRange (src (ua 0)))
        | "app_fwd" ->
            (* no up-front check: push_back's precondition fires once the string is full; the string has been modified by
               then unless it was full at the start *)
            let vo = OAppendRangeIn (src (ua 0)) in
            let flag = if k = cap then "1" else "0" in
            ((match str_step s vo with Ok _ -> "ok" | Contract -> "contract " ^ flag ^ " # " ^ f ^ " size()_<_capacity()" | UB _ -> "ub" | OutOfFuel -> "fuel"),
-            (if str_pre_doc (z_of_int k) zc vo then "ok" else "contract " ^ flag))
+            (if str_pre_std (z_of_int k) zc vo then "ok" else "contract " ^ flag))
        | "plus_str" -> by_op fits (OAppendStr (src (ua 0)))
        | "plus_cstr" | "app_cstr" -> by_op fits (OAppendCstr (cstr (ua 0)))
        | "plus_ch" | "pluseq_ch" -> by_op fits (OAppendFill (z_of_int 1, z))
@@ -375,7 +485,7 @@ let run_case op t =
       let h = next_bool t in let _ = next_str t in (lege (exp_arrow h) "expected.hpp" "-", sp (pre_exp_arrow h))
   | "arrfb" ->
       let n = next_z t in let o = next_str t in
-      let safe = (try Sys.getenv "VERIF_C05_SAFE" = "1" with Not_found -> false) in
+      let safe = safe_active () in
       let (g, e) = (match o with
         | "front" | "cfront" -> (array_front n, "Size_!=_0")
         | "back" | "cback" -> (array_back n, "Size_!=_0")
